@@ -56,7 +56,14 @@ using namespace ASAM::CMP;
 #ifndef P3
 #define P3 0
 #endif
+#ifndef PRAW
+#define PRAW 0   // 1: the earlier state is an object constructed from arbitrary valid raw bytes (as the decoder does), not a built one
+#endif
+#ifndef NULLP
+#define NULLP 0  // 1: an empty final data block is passed as (nullptr, 0)
+#endif
 #define DMAX 72
+#define DATA_PTR ((NULLP && N == 0) ? static_cast<const uint8_t*>(nullptr) : g_data)
 
 static uint8_t g_data[DMAX], g_prev[DMAX], g_vend[DMAX], g_pvend[DMAX];
 
@@ -106,17 +113,25 @@ VP_HARNESS(h_build)
     const uint32_t id = vp_u32() & 0x1FFFFFFF;
     const uint16_t flags = vp_u16() & 0xFC00;  // no bus-error flags: the result has to be a valid message
     const bool ide = vp_u8() & 1, crcSup = vp_u8() & 1;
+#if PN >= 0 && PRAW
+    // earlier state: any raw payload the class's validator accepts (dlc / data length / flags need not be consistent)
+    static uint8_t rawPrev[16 + DMAX];
+    vp_bytes(rawPrev, 16 + PN);
+    vp_assume(CanT::isValidPayload(rawPrev, 16 + PN));
+    CanT* a = new CanT(rawPrev, 16 + PN);
+#else
     CanT* a = new CanT;
 #if PN >= 0
     vp_bytes(g_prev, PN);
     a->setId(vp_u32() & 0x1FFFFFFF);
     a->setData(g_prev, PN);
 #endif
+#endif
     a->setId(id);
     a->setFlags(flags);
     a->setIde(ide);
     a->setCrcSupport(crcSup);
-    a->setData(g_data, N);
+    a->setData(DATA_PTR, N);
     vp_assert(a->getDataLength() == N, "C13: data length getter returns the supplied length");
     vp_assert(a->getLength() == 16 + N, "C13: payload length is header plus data");
     if (N > 0)
@@ -129,6 +144,12 @@ VP_HARNESS(h_build)
         vp_assert(a->getDlc() == DLC_OF[N], "C13: CAN DLC code matches the data length (ISO 11898-1 table)");
     vp_assert(a->getId() == id && a->getFlags() == flags && a->getIde() == ide && a->getCrcSupport() == crcSup,
               "C13: header fields set earlier are preserved by setData");
+    vp_assert(a->getId() == id && a->getFlags() == flags && a->getIde() == ide && a->getCrcSupport() == crcSup,
+              "C11: writing the data block changes no header field");
+#if PN >= 0 && PRAW
+    vp_assert(a->getRawPayload()[15] == N, "C13: the data length field matches the data length");
+    return;  // fields the harness did not set (rtr, crc, error position ...) legitimately survive from the raw state: no fresh-object twin
+#endif
     selfValid(*a, 1, CLS == 1 ? 1 : 2);
     CanT* b = new CanT;
     b->setId(id);
@@ -168,21 +189,33 @@ VP_HARNESS(h_build)
     vp_bytes(g_data, N);
     const uint8_t id = vp_u8() & 0x3F, par = vp_u8() & 3, sum = vp_u8();
     const uint16_t flags = vp_u16();
+#if PN >= 0 && PRAW
+    static uint8_t rawPrev[8 + DMAX];
+    vp_bytes(rawPrev, 8 + PN);
+    vp_assume(LinPayload::isValidPayload(rawPrev, 8 + PN));
+    LinPayload* a = new LinPayload(rawPrev, 8 + PN);
+#else
     LinPayload* a = new LinPayload;
 #if PN >= 0
     vp_bytes(g_prev, PN);
     a->setData(g_prev, PN);
 #endif
+#endif
     a->setLinId(id);
     a->setParityBits(par);
     a->setChecksum(sum);
     a->setFlags(flags);
-    a->setData(g_data, N);
+    a->setData(DATA_PTR, N);
     vp_assert(a->getDataLength() == N && a->getLength() == 8 + N, "C13: length getters return the supplied length");
     for (unsigned i = 0; i < N; ++i)
         vp_assert(a->getData()[i] == g_data[i], "C13: data getter returns exactly the supplied bytes");
     vp_assert(a->getLinId() == id && a->getParityBits() == par && a->getChecksum() == sum && a->getFlags() == flags,
               "C13: header fields set earlier are preserved by setData");
+    vp_assert(a->getLinId() == id && a->getParityBits() == par && a->getChecksum() == sum && a->getFlags() == flags,
+              "C11: writing the data block changes no header field");
+#if PN >= 0 && PRAW
+    return;
+#endif
     selfValid(*a, 1, 3);
     LinPayload* b = new LinPayload;
     b->setLinId(id);
@@ -205,11 +238,12 @@ VP_HARNESS(h_build)
     a->setData(g_prev, PN);
 #endif
     a->setFlags(flags);
-    a->setData(g_data, N);
+    a->setData(DATA_PTR, N);
     vp_assert(a->getDataLength() == N && a->getLength() == 6 + N, "C13: length getters return the supplied length");
     for (unsigned i = 0; i < N; ++i)
         vp_assert(a->getData()[i] == g_data[i], "C13: data getter returns exactly the supplied bytes");
     vp_assert(a->getFlags() == flags, "C13: header fields set earlier are preserved by setData");
+    vp_assert(a->getFlags() == flags, "C11: writing the data block changes no header field");
     selfValid(*a, 1, 8);
     EthernetPayload* b = new EthernetPayload;
     b->setFlags(flags);
@@ -231,7 +265,7 @@ VP_HARNESS(h_build)
 #endif
     a->setSampleDt(i32 ? AnalogPayload::SampleDt::aInt32 : AnalogPayload::SampleDt::aInt16);
     a->setUnit(static_cast<AnalogPayload::Unit>(unit));
-    a->setData(g_data, N);
+    a->setData(DATA_PTR, N);
     vp_assert(a->getLength() == 16 + N, "C13: payload length is header plus data");
     vp_assert(a->getSamplesCount() == N / (i32 ? 4 : 2), "C13: sample count matches the data length");
     if (a->getSamplesCount() > 0)
@@ -239,6 +273,8 @@ VP_HARNESS(h_build)
             vp_assert(a->getData()[i] == g_data[i], "C13: data getter returns exactly the supplied bytes");
     vp_assert(a->getSampleDt() == (i32 ? AnalogPayload::SampleDt::aInt32 : AnalogPayload::SampleDt::aInt16) && static_cast<uint8_t>(a->getUnit()) == unit,
               "C13: header fields set earlier are preserved by setData");
+    vp_assert(a->getSampleDt() == (i32 ? AnalogPayload::SampleDt::aInt32 : AnalogPayload::SampleDt::aInt16) && static_cast<uint8_t>(a->getUnit()) == unit,
+              "C11: writing the data block changes no header field");
     selfValid(*a, 1, 7);
     AnalogPayload* b = new AnalogPayload;
     b->setSampleDt(i32 ? AnalogPayload::SampleDt::aInt32 : AnalogPayload::SampleDt::aInt16);
@@ -302,6 +338,7 @@ VP_HARNESS(h_build)
     for (unsigned i = 0; i < V; ++i)
         vp_assert(a->getVendorData()[i] == g_vend[i], "C13: vendor data getter returns the supplied bytes");
     vp_assert(a->getUptime() == uptime && a->getGptpFlags() == gptp, "C13: header fields set earlier are preserved by setData");
+    vp_assert(a->getUptime() == uptime && a->getGptpFlags() == gptp, "C11: writing the data block changes no header field");
     // wire form: 16-bit length (string + NUL, rounded up to even), the string, NUL and zero padding
     const uint8_t* raw = a->getRawPayload();
     unsigned pos = 26;
@@ -352,6 +389,7 @@ VP_HARNESS(h_build)
     for (unsigned i = 0; i < V; ++i)
         vp_assert(a->getVendorData()[i] == g_vend[i], "C13: vendor data getter returns the supplied bytes");
     vp_assert(a->getInterfaceId() == ifId && a->getMsgTotalRx() == rx, "C13: header fields set earlier are preserved by setData");
+    vp_assert(a->getInterfaceId() == ifId && a->getMsgTotalRx() == rx, "C11: writing the data block changes no header field");
     const uint8_t* raw = a->getRawPayload();
     const unsigned padded = (N + 1) & ~1u;
     vp_assert(vp_be16(raw + 36) == N, "C13: stream-id count field");
